@@ -11,6 +11,7 @@ class Glexsort(Contract):
     name = "numpoly.glexsort"
     relpath = "numpoly/utils/glexsort.py"
     func = "glexsort"
+    positional = ("keys", "graded", "reverse")
     properties = ("C18", "C07", "C19", "C16")
     assumptions = ("pigeonhole: an injective map from {0..n-1} into {0..n-1} is a permutation",
                    "keys is a 2-d integer array (the 1-d form is the D=1 instance after numpy.atleast_2d)")
